@@ -3,7 +3,7 @@
     [pick], any stopping point [fuel]. The deterministic selection is an instance (the C02_select theorems). *)
 From Coq Require Import List NArith ZArith Lia Bool.
 From Verif Require Import Base.BStr Txcache.TxTypes Txcache.Selection Txcache.Judge Txcache.Selection_proofs
-  Txcache.Pool Txcache.Pool_proofs Txcache.Pool_props.
+  Txcache.Pool Txcache.Pool_proofs Txcache.Pool_props Txcache.Judge_proofs.
 Import ListNotations.
 Open Scope N_scope.
 
@@ -78,6 +78,17 @@ Proof.
   apply N.eqb_eq in H1. apply N.leb_le in H2. auto.
 Qed.
 
+(** all five judges together (labels 22-26 of the pool component): a verdict [true] on the IMPLEMENTATION's result is the statement *)
+Theorem C02_checkers_sound : forall sess gasRequested acc maxNum result,
+  c02_allb sess gasRequested acc maxNum result = true <-> c02_result sess gasRequested acc maxNum result.
+Proof. exact c02_allb_iff. Qed.
+
+(** ... and they accept the model's own selection over every reachable pool: no alarm on a conforming implementation *)
+Theorem C02_checkers_accept_model : forall cfg ops sess gasRequested maxNum, hist_ok ops ->
+  let r := select_txs (run_pool cfg ops) sess gasRequested maxNum in
+  c02_allb sess gasRequested (snd r) maxNum (fst r) = true.
+Proof. exact run_pool_selection_accepted. Qed.
+
 (** [committed] is the sum the property speaks of *)
 Theorem C02_committed_meaning : forall pre a,
   committed pre a =
@@ -114,3 +125,5 @@ Print Assumptions C02_reachable_members_distinct.
 Print Assumptions C02_checker_balance_sound.
 Print Assumptions C02_checker_gas_sound.
 Print Assumptions C02_committed_meaning.
+Print Assumptions C02_checkers_sound.
+Print Assumptions C02_checkers_accept_model.
